@@ -68,13 +68,16 @@ func verifPlan(kind string, chunked bool, burst bool) zzverif.Plan {
 		return zzverif.Plan{Kind: "ok", Status: 500, Chunked: chunked, Body: `{"error":{"message":"backend exploded","type":"server_error"}}`}
 	case "http_big":
 		// an error page larger than any "small error body" assumption
-		return zzverif.Plan{Kind: "ok", Status: 503, Chunked: chunked,
+		return zzverif.Plan{Kind: "ok", Status: 503, Chunked: chunked, TailBytes: 20000,
 			Body: `{"error":{"message":"` + strings.Repeat("overloaded ", 12000) + `","type":"server_error"}}`}
 	case "http_alt":
 		// an error answer that is not an OpenAI error envelope
 		return zzverif.Plan{Kind: "ok", Status: 404, Chunked: chunked, Body: `{"object":"error","message":"model not found","code":404}`}
 	case "reset_after", "close_after":
 		return zzverif.Plan{Kind: kind, Status: 200, N: verifN, K: verifK, Chunked: chunked}
+	case "http_cut":
+		// an error status whose body is cut off after a few tokens: one failed attempt, however it ends
+		return zzverif.Plan{Kind: "reset_after", Status: 500, N: verifN, K: verifK, Chunked: chunked}
 	case "hdr_then_reset":
 		return zzverif.Plan{Kind: kind, Status: 200, N: verifN, K: 0, Chunked: chunked}
 	default:
@@ -240,6 +243,17 @@ func TestVerif_Dispatch(t *testing.T) {
 				}
 			}
 		}
+		if sn%2 == 1 {
+			// every other stack streams through a 64 KiB buffer (the engines' own default) instead of the 8 KiB of
+			// the shipped configuration: reads, and the last read before EOF, can then be much larger
+			inner := mod
+			mod = func(c *config.Config) {
+				if inner != nil {
+					inner(c)
+				}
+				c.Proxy.StreamBufferSize = 64 << 10
+			}
+		}
 		stk, err := verifBoot(sc.Engine, sc.LB, "auto", opts, mod)
 		if err != nil {
 			b.Emit("Reset", "scn", sn, "engine", sc.Engine, "eps", sc.Eps, "booted", false, "err", err.Error())
@@ -273,6 +287,9 @@ func TestVerif_Dispatch(t *testing.T) {
 				}
 				p := verifPlanFor(curRoute.Load().(string), kind, chunked, inBurst.Load())
 				pst := p.Status
+				if kind == "http_cut" {
+					kind = "reset_after" // the specification knows it as a reset after the response started, with status 500
+				}
 				emit("BackendRecv", "r", r.ReqID, "e", be.Name, "a", r.Attempt, "kind", kind, "pst", pst,
 					"pn", p.N, "pk", p.K, "pb", len(p.Body), "sig", verifSig(r), "gs", stk.gaugeOf(be), "target", r.Target)
 				return p
